@@ -325,11 +325,13 @@ class CondPlugin(PrimitiveLeafPlugin):
 
         lower_jaxpr_eqns(branch_ctx, branch_jaxpr, source="cond")
 
-        input_names = {val.name for val in branch_inputs}
+        # Every output position needs a value of its own: a branch may return one
+        # of its inputs, or the same result twice (`return z, z`).
+        taken_names = {val.name for val in branch_inputs}
         branch_outputs: list[ir.Value] = []
         for out_var in branch_jaxpr.outvars:
             val = branch_ctx.get_value_for_var(out_var)
-            if val.name in input_names:
+            if val.name in taken_names:
                 orig_type = getattr(val, "type", None)
                 val = builder.Identity(
                     val,
@@ -338,6 +340,7 @@ class CondPlugin(PrimitiveLeafPlugin):
                 if orig_type is not None:
                     val.type = orig_type
             branch_outputs.append(val)
+            taken_names.add(val.name)
             _stamp_type_and_shape(val, tuple(getattr(out_var.aval, "shape", ())))
             _ensure_value_metadata(branch_ctx, val)
 
